@@ -43,6 +43,7 @@ type c10Spec struct {
 	db, coll string // "*" = all; db of a CollectionInfos request is "default"
 	taskID   string
 	live     bool
+	noAuto   bool // disable_auto_start: the task is registered but not started when the server reloads it
 	exclude  []c10Pat // specs owned by other tasks when this one was accepted
 }
 
@@ -55,7 +56,7 @@ func c10Covers(pdb, pcoll, db, coll string) bool {
 
 // c10Request builds a create request for one spec.
 func c10Request(sp *c10Spec, useDBForm bool) *request.CreateRequest {
-	req := &request.CreateRequest{MilvusConnectParam: model.MilvusConnectParam{URI: "http://target:19530"}}
+	req := &request.CreateRequest{MilvusConnectParam: model.MilvusConnectParam{URI: "http://target:19530"}, DisableAutoStart: sp.noAuto}
 	ci := []model.CollectionInfo{{Name: sp.coll}}
 	if useDBForm {
 		req.DBCollections = map[string][]model.CollectionInfo{sp.db: ci}
@@ -91,6 +92,9 @@ func VerifC10_History() {
 	sUUID = 0
 	uKey := "http://target:19530"
 	var specs []*c10Spec
+	// deep histories: every task of the history is created with or without disable_auto_start
+	// (matters at the reload below: such tasks are registered but not started)
+	menuNoAuto := vParam("MENU", 0) == 1 && vBool("menu.disableAutoStart")
 	for k := 0; k < K; k++ {
 		liveIdx := []int{}
 		for i, s := range specs {
@@ -111,9 +115,10 @@ func VerifC10_History() {
 		if vParam("MENU", 0) == 1 {
 			// deep histories: the specification is one of four concrete shapes, no faults
 			sp = &c10Spec{db: []string{"a", "*"}[vChoice("menu.db", 2)], coll: []string{"c", "*"}[vChoice("menu.coll", 2)]}
+			sp.noAuto = menuNoAuto
 			c10StartFails, f.faults = false, false
 		} else {
-			sp = &c10Spec{coll: c10Name("spec.coll", L)}
+			sp = &c10Spec{coll: c10Name("spec.coll", L), noAuto: k == 0 && vBool("spec.disableAutoStart")}
 			useDBForm = vBool("spec.dbForm")
 			if useDBForm {
 				sp.db = c10Name("spec.db", L)
